@@ -2,8 +2,9 @@
     Property theorems only; each closed by [exact] of a lemma from Proofs/.
     [gm] is the glob matcher (globset; external, universally quantified),
     [m] the mapping of the configured storage layout (C11's subject).
-    Two former known classes are repaired in /repo and no longer excluded:
-    root-named-extensions (38fe584) and stale-id-path-cache (4564259). *)
+    Three former known classes are repaired in /repo and no longer excluded:
+    root-named-extensions (38fe584), stale-id-path-cache (4564259) and
+    layout-path-occupied (01aa490). *)
 From Rocfl Require Import Base.Bytes Generated.Consts Model.Listing Model.KnownC19
   Proofs.ListingFacts Proofs.ListingWalkFacts Proofs.ListingGetFacts Proofs.ListingHandle Proofs.ListingWitness.
 From Coq Require Import Permutation.
@@ -76,13 +77,27 @@ Proof. exact scan_spec. Qed.
 Print Assumptions C19_get_found_iff_committed.
 
 (** lookup through the layout path: a committed object placed where the layout
-    says is found (also below a directory named extensions), a free path is NotFound *)
+    says is found (also below a directory named extensions); a path that holds
+    nothing, a regular file, or a directory without object declaration and
+    inventory (e.g. [extensions], a directory other objects are stored beneath)
+    is NotFound *)
 Theorem C19_get_by_layout_path : forall m t i,
   names_unique t = true -> Placed m t ->
   (In i (committed_ids t) -> get_inventory_by_path t i (m i) = Found (m i) i) /\
-  (lookup_path t (m i) = None -> get_inventory_by_path t i (m i) = NotFound).
+  (object_like t (m i) = false -> get_inventory_by_path t i (m i) = NotFound).
 Proof. exact get_by_layout_path_lemma. Qed.
 Print Assumptions C19_get_by_layout_path.
+
+(** a path inside another object is NotFound unless it holds an inventory file (the classifier) *)
+Theorem C19_get_inside_object : forall t i p,
+  nested_in_object t p = true -> c19_layout_path_inside_object t p = false ->
+  get_inventory_by_path t i p = NotFound.
+Proof. exact get_inside_object. Qed.
+Print Assumptions C19_get_inside_object.
+
+Theorem C19_free_path_not_object : forall t p, lookup_path t p = None -> object_like t p = false.
+Proof. exact object_like_free. Qed.
+Print Assumptions C19_free_path_not_object.
 
 (** get_inventory with the id->path cache of the handle.  [reachable lay t c]:
     the handle was opened and then used for any sequence of lookups (get_inventory,
@@ -105,7 +120,7 @@ Print Assumptions C19_get_inventory_nolayout.
 Theorem C19_get_inventory_layout : forall m t c i,
   reachable (Some m) t c -> names_unique t = true -> Placed m t ->
   (In i (committed_ids t) -> exists p, fst (get_inventory (Some m) c t i) = Found p i) /\
-  (~ In i (committed_ids t) -> lookup_path t (m i) = None -> fst (get_inventory (Some m) c t i) = NotFound).
+  (~ In i (committed_ids t) -> object_like t (m i) = false -> fst (get_inventory (Some m) c t i) = NotFound).
 Proof. exact handle_layout. Qed.
 Print Assumptions C19_get_inventory_layout.
 
@@ -194,17 +209,36 @@ Theorem C19_known_id_needs_escape_refuted :
 Proof. exact (conj w_esc_wf w_esc_facts). Qed.
 Print Assumptions C19_known_id_needs_escape_refuted.
 
-Theorem C19_known_layout_path_occupied_refuted :
-  ~ In (b "extensions") (committed_ids w_good) /\
-  c19_layout_path_occupied w_good [b "extensions"] = true /\
-  get_inventory_by_path w_good (b "extensions") [b "extensions"] = GenErr /\
-  get_inventory_by_path w_good (b "0=ocfl_1.1") [b "0=ocfl_1.1"] = GenErr.
-Proof. exact w_occupied_facts. Qed.
-Print Assumptions C19_known_layout_path_occupied_refuted.
+Theorem C19_known_layout_path_inside_object_refuted :
+  ~ In (b "a/b/v1") (committed_ids w_good) /\
+  c19_layout_path_inside_object w_good [b "a"; b "b"; b "v1"] = true /\
+  get_inventory_by_path w_good (b "a/b/v1") [b "a"; b "b"; b "v1"] = Corrupt /\
+  c19_layout_path_inside_object w_good [b "a"; b "b"; b "v2"] = false /\
+  get_inventory_by_path w_good (b "a/b/v2") [b "a"; b "b"; b "v2"] = NotFound.
+Proof. exact w_inside_facts. Qed.
+Print Assumptions C19_known_layout_path_inside_object_refuted.
 
-(** The two repaired classes, as examples of the theorems above, each with a
-    historical note: the definitions [walk_before_fix] / [purge_cache_before_fix]
-    are the code before 38fe584 / 4564259 and violated the property. *)
+(** The three repaired classes, as examples of the theorems above, each with a
+    historical note: the definitions [walk_before_fix] / [purge_cache_before_fix] /
+    [get_inventory_by_path_before_fix] are the code before 38fe584 / 4564259 /
+    01aa490 and violated the property. *)
+Example C19_repaired_layout_path_occupied :
+  ~ In (b "extensions") (committed_ids w_good) /\
+  object_like w_good [b "extensions"] = false /\
+  get_inventory_by_path w_good (b "extensions") [b "extensions"] = NotFound /\
+  get_inventory_by_path w_good (b "0=ocfl_1.1") [b "0=ocfl_1.1"] = NotFound /\
+  get_inventory_by_path w_good (b "a") [b "a"] = NotFound /\
+  fst (get_inventory (Some (fun i => [i])) [] w_good (b "extensions")) = NotFound /\
+  get_inventory_by_path w_good (b "one") [b "a"; b "b"] = Found [b "a"; b "b"] (b "one") /\
+  get_inventory_by_path w_good (b "zzz") [b "a"; b "b"] = Corrupt.
+Proof. exact w_occupied_facts. Qed.
+
+Example C19_history_layout_path_occupied_before_fix :
+  get_inventory_by_path_before_fix w_good (b "extensions") [b "extensions"] = GenErr /\
+  get_inventory_by_path_before_fix w_good (b "0=ocfl_1.1") [b "0=ocfl_1.1"] = GenErr /\
+  get_inventory_by_path_before_fix w_good (b "a") [b "a"] = GenErr.
+Proof. exact w_occupied_before_fix. Qed.
+
 Example C19_repaired_root_named_extensions :
   WellFormedRepo w_ext /\
   c19_id_needs_escape w_ext = false /\
